@@ -16,7 +16,7 @@ import os
 
 from mc import battery, env, iolog, seqx, world
 from mc.battery import Exc, call, p64, u64
-from mc.refmodel import Model
+from mc.refmodel import Model, Z64
 
 MOD = 'checks.c16_demo'
 KINDS = ['new', 'mod', 'mod2', 'stale', 'undo', 'ab2', 'pack', 'push', 'pop']
@@ -270,6 +270,115 @@ def node(w, hist, cfg, res):
     return n, len(m.txns) > m.undo_floor, viol
 
 
+BLOB_OPS = ('open', 'load', 'store-new', 'store-existing')
+
+
+def blob_layer_task(layering):
+    """A blob-capable base under a demo storage that makes its own changes
+    storage ('implicit') or is pushed on top of another demo storage
+    ('push'): every sequence of two blob operations as the first thing done
+    with the fresh layer; blob reads come from the changes, else from the
+    base; the base's files stay as they are."""
+    import itertools
+    from mc import hclasses, schedx
+    env.install()
+    res = schedx._new_res()
+    seen = set()
+    for seq in itertools.product(BLOB_OPS, repeat=2):
+        env.reset_globals()
+        d = env.new_dir('bl')
+        FS = env.mod('ZODB.FileStorage.FileStorage').FileStorage
+        DS = env.mod('ZODB.DemoStorage').DemoStorage
+        wit = dict(bloblayer=dict(layering=layering, ops=list(seq)))
+
+        def bad(c, sg, det):
+            fs = 'C16.%s:blob:%s:%s' % (c, layering, sg)
+            if fs not in seen:
+                seen.add(fs)
+                res['violations'].append(('C16.' + c, fs, wit, det, 1))
+
+        def blobfile(data):
+            p = os.path.join(d, 'in.tmp')
+            with open(p, 'wb') as f:
+                f.write(data)
+            return p
+        base = FS(os.path.join(d, 'B.fs'), blob_dir=os.path.join(d, 'bb'))
+        st = None
+        try:
+            env.CLOCK.now += 1
+            t = world.TMD()
+            base.tpc_begin(t)
+            base.storeBlob(p64(1), Z64, hclasses.mkrec('P', 1),
+                           blobfile(b'base-bytes'), '', t)
+            base.tpc_vote(t)
+            tid1 = base.tpc_finish(t)
+            snap = {k: v for k, v in iolog.snapshot(
+                os.path.join(d, 'bb')).items() if v is not None}
+            st = DS(base=base)
+            if layering == 'push':
+                st = st.push()
+            cur = {1: (tid1, b'base-bytes')}
+
+            def read(how, oid):
+                serial, want = cur[oid]
+                if how == 'open':
+                    r = call(lambda: st.openCommittedBlobFile(
+                        p64(oid), serial).read())
+                else:
+                    r = call(lambda: open(st.loadBlob(
+                        p64(oid), serial), 'rb').read())
+                if r != want:
+                    bad('read', '%s:%s' % (how, r.name if isinstance(
+                        r, Exc) else 'wrong-bytes'),
+                        dict(oid=oid, expected=want, got=repr(r)[:100]))
+            for i, op in enumerate(seq):
+                env.CLOCK.now += 1
+                res['cov']['transitions'] += 1
+                if op in ('open', 'load'):
+                    for oid in sorted(cur):
+                        read(op, oid)
+                else:
+                    oid = 2 + i if op == 'store-new' else 1
+                    data = b'demo-%d-%d' % (oid, i)
+                    t = world.TMD()
+                    r = call(st.tpc_begin, t)
+                    r = call(st.storeBlob, p64(oid),
+                             cur[oid][0] if oid in cur else Z64,
+                             hclasses.mkrec('P', 10 + i), blobfile(data),
+                             '', t)
+                    if not isinstance(r, Exc):
+                        r = call(st.tpc_vote, t)
+                    if isinstance(r, Exc):
+                        call(st.tpc_abort, t)
+                        bad('read', 'store:%s' % r.name,
+                            dict(op=op, got=repr(r)[:120]))
+                        break
+                    tid = st.tpc_finish(t)
+                    cur[oid] = (tid, data)
+            for oid in sorted(cur):
+                read('load', oid)
+                read('open', oid)
+            now = {k: v for k, v in iolog.snapshot(
+                os.path.join(d, 'bb')).items() if v is not None}
+            if now != snap:
+                bad('base', 'files', dict(
+                    changed=sorted(set(now) ^ set(snap))[:4]))
+            res['cov']['evaluations'] += 1
+            res['cov']['states'] += 1
+            res['cov']['traces_validated_against_impl'] += 1
+            res['cov']['distinct_nontrivial'] += 1
+            res['outcomes']['blob-layer'] = 1
+        except Exception as e:      # noqa: B902
+            bad('error', type(e).__name__, dict(error=repr(e)[:200]))
+        finally:
+            try:
+                (st or base).close()
+            except Exception:
+                pass
+            env.rm_dir(d)
+    return res
+
+
 def run(rep, tier, seed, workers):
     depth = 4 if tier == 'quick' else 5
     bdepths = (0, 1, 2)
@@ -282,7 +391,8 @@ def run(rep, tier, seed, workers):
         'and without resolver, undo, abort after vote, pack with gc off, '
         'pack as DB.pack asks for it, push, pop}; a pack must leave the '
         'current state of every object as it was, a failing pack '
-        'everything; '
+        'everything; a blob-capable base under a fresh implicit / pushed '
+        'layer with every pair of blob operations first; '
         'after every step: demo battery vs one combined list model, base '
         'battery and files vs their snapshot, new_oid aimed at existing '
         'ids; non-trivial = history with at least one transaction in the '
@@ -299,14 +409,25 @@ def run(rep, tier, seed, workers):
                     states += len(fps)
             rep.bounds['D(%s,%s) depth' % (base, changes)] = depth
     rep.bounds['base history depth'] = max(bdepths)
-    rep.cov['states'] = max(states, 1)
+    from mc import par
+    before = rep.cov.get('states', 0)
+    par.run_tasks([(MOD, 'blob_layer_task', (lay,))
+                   for lay in ('implicit', 'push')], workers, rep, seed)
+    rep.bounds['blob operations on a fresh layer over a blob-capable '
+               'base'] = 2
+    rep.cov['states'] = max(states, 1) + rep.cov.get('states', 0) - before
     rep.assumptions = [
         'the clock is monotone across both layers',
         'after a pack the list model is not continued']
 
 
 def replay(w):
-    viol = seqx.replay_history(MOD, w['witness'])
+    if 'bloblayer' in w['witness']:
+        r = blob_layer_task(w['witness']['bloblayer']['layering'])
+        viol = [(v[0].split('.', 1)[1], v[1].split(':', 1)[1], v[3])
+                for v in r['violations']]
+    else:
+        viol = seqx.replay_history(MOD, w['witness'])
     for v in viol:
         print(v)
     sigs = {'C16.%s:%s' % (c, s) for c, s, d in viol}
